@@ -171,13 +171,31 @@ def explore(ctx, res, replay=None):
         if il == 'SKIPPED':
             continue
         if il.startswith('MEMLIMIT'):
-            res.violations.append(dict(case, what='memory', detail='the compilation was stopped after allocating more than the 3 GB a single case may use: work not bounded by the input'))
+            # stopped after allocating more than a single case may use.  When the model of the same input runs out of its
+            # own time as well (a macro that doubles the stream on every pass is allowed to: the bound is exponential in
+            # the pass budget) nothing is decided; when the model finishes, the implementation did unbounded work
+            ml0 = mout['c%d' % i] if mout is not None else 'TIMEOUT'
+            if ml0.startswith(('TIMEOUT', 'FUEL')) or ml0.endswith('FUEL'):
+                res.count('both_out_of_resources')
+                res.skipped += 1
+            else:
+                res.violations.append(dict(case, what='memory', detail='the compilation was stopped after allocating more than the 3 GB a single case may use, on an input the model compiles within its budget: work not bounded by the input'))
             continue
         if il.startswith('TIMEOUT'):
             # expansion work is cubic in the stream length for self-reproducing macros: a slow case is re-run alone,
             # unsanitized, with a twenty-fold limit before it counts as a hang
             res.count('slow_rerun')
             il = ctx.run_impl([('c%d' % i, cases[i][1])], variant='plain', timeout_case=600)['c%d' % i]
+            if il.startswith(('TIMEOUT', 'MEMLIMIT')):
+                ml0 = mout['c%d' % i] if mout is not None else 'TIMEOUT'
+                if ml0.startswith(('TIMEOUT', 'FUEL')) or ml0.endswith('FUEL'):
+                    # the model of the same input is out of its budget too: an expansion whose size is exponential in the
+                    # pass budget (a body that repeats a slot) is within the stated bound; nothing is decided
+                    res.count('both_out_of_resources')
+                    res.skipped += 1
+                    continue
+                res.violations.append(dict(case, what='hang', detail='no result within 600 s / 3 GB although the model compiles the input within its budget: ' + il[:60]))
+                continue
         leak = il.endswith('LEAK')
         ip = parse_compile(il)
         if ip is None:
